@@ -37,7 +37,7 @@ def one(item):
         s = open(p).read()
         new = ("renamed_" + name) if name.endswith("_") else (name + "_renamed")
         if name[0].isupper() or name[0].islower() and not name.endswith("_") and (name, hdr) in PRIVATE_FUNCTIONS:
-            new = name + "Renamed"
+            new = "renamed" + name[0].upper() + name[1:]      # a prefix: rules must not rely on how a name starts either
         s2 = re.sub(r"\b%s\b" % re.escape(name), new, s)
         open(p, "w").write(s2)
         r = subprocess.run(["clang++", "-std=gnu++17", "-fsyntax-only", "-I" + os.path.join(d, "include"), "-I/usr/include/eigen3", os.path.join(VERIF, "wit", "wit_quick.cpp")],
@@ -69,7 +69,15 @@ PRIVATE_FUNCTIONS = [("propagateGradInternal", "SplineTrajectory.hpp"), ("solveI
 
 if __name__ == "__main__":
     if "--functions" in sys.argv:
-        candidates = lambda: PRIVATE_FUNCTIONS
+        def all_private_functions():
+            from sa.facts import load
+            F = load("/repo", "wit_quick.cpp", ())
+            found = {(f["name"], f["file"]) for f in F.functions if f.get("kind") == "method" and f.get("access") != "public"
+                     and str(f.get("cls", "")).startswith("SplineTrajectory::") and f["name"].isidentifier()}
+            return sorted(found | set(PRIVATE_FUNCTIONS))
+        candidates = all_private_functions
+        PRIVATE_FUNCTIONS_ALL = all_private_functions()
+        PRIVATE_FUNCTIONS[:] = PRIVATE_FUNCTIONS_ALL
         sys.argv.remove("--functions")
     args = [a for a in sys.argv[1:] if not a.startswith("--")]
     jobs = int(next((a.split("=")[1] for a in sys.argv[1:] if a.startswith("--jobs=")), "4"))
